@@ -454,6 +454,21 @@ def behavioural(res, fact):
         for sel in range(256):
             rg = dict(regs, BA=0xFEDC, I=0xBA98, X=0x21234, Y=0x35678, U=0x49ABC, S=0x5DEF0)
             wcases.append((f"sel:{opcode:02X}:{sel:02X}", mk(bytes([opcode, sel]), rg, dict(base_mem), "?", opcode)))
+    # (c5) the extent of the internal-memory window (address-space constants INTERNAL_MEMORY_START / length 0x100, kept
+    #      separately by each core) by behaviour: single accesses to the first and the last offset, and block moves whose
+    #      internal pointer steps over offset FF (it wraps to 00 inside the window on both cores)
+    for code, rg, what in ((bytes([0x32, 0xA0, 0xFF]), dict(regs, BA=0x5AC3), "imem_window:last_offset_store"),
+                           (bytes([0x32, 0xA0, 0x00]), dict(regs, BA=0x5AC3), "imem_window:first_offset_store"),
+                           (bytes([0x32, 0x80, 0xFF]), dict(regs), "imem_window:last_offset_load"),
+                           (bytes([0x32, 0xCB, 0xFE, 0x20]), dict(regs, I=4), "imem_window:block_up_over_FF"),
+                           (bytes([0x32, 0xCB, 0x20, 0xFD]), dict(regs, I=5), "imem_window:block_source_up_over_FF"),
+                           (bytes([0x32, 0xCF, 0x01, 0x30]), dict(regs, I=4), "imem_window:block_down_under_00")):
+        mem = dict(base_mem)
+        for off in range(0x100):
+            mem.setdefault(IMEM + off, (0x11 * off + 7) & 0xFF)
+        for a in (0x100, 0x101, 0x102, 0xFFFFE, 0xFFFFF):
+            mem[a] = 0xE0 + (a & 0xF)
+        wcases.append((what, mk(code, rg, mem, "?", code[1], 0x32)))
     rr = rust.run("exec", [dict(c, id=i) for i, (_, c) in enumerate(wcases)])
     for (what, case), r in zip(wcases, rr):
         obs = pyexec.run_case(case)
